@@ -190,5 +190,12 @@ theorem validator_removal_strands_residual_shares :
     ((afterValidatorRemoved 0 wResidue).2.vals.map (fun p => DecCoins.sumOf p.2.valShares 1)).sum = 0 ∧
     (getAsset (afterValidatorRemoved 0 wResidue).2 1).map (·.totalValShares) = some 5 := by decide
 
+
+/-- the same with NO custody scope: along every history of operations on any response tape (outside D16), failed transactions and
+    environment steps that leave the record stores alone, the delegator-share ledger holds — "asset records are keyed by their
+    denom", the one thing the custody scope was needed for, is part of `Stores`, which every keeper function keeps -/
+theorem delegator_ledger_all_histories_unscoped (w w' : World) (hs : Stores w) (hl : L0 w) (hr : ReachLS w w') : L0 w' :=
+  (reach_ledger_unscoped w w' hs hl hr).1
+
 end C03
 end Alliance
